@@ -307,8 +307,10 @@ func (c *XAConn) Rollback(ctx context.Context) error {
 			return c.rollbackErrorHandle()
 		}
 		if c.XaRollback(ctx, c.xaBranchXid) != nil {
+			// build the error first: cleaning drops the branch xid of a released connection
+			err := c.rollbackErrorHandle()
 			c.cleanXABranchContext()
-			return c.rollbackErrorHandle()
+			return err
 		}
 		if err := c.tx.Rollback(); err != nil {
 			c.cleanXABranchContext()
